@@ -25,7 +25,8 @@ LEVEL_TEXT = ("Exhaustive core: all 13 448 boards with at most 4 tiles (8 shapes
               "probabilities, boards from the random generator with and without force-down, and the manual entry point. "
               "Each emitted game is compared with an independently written abstract model by partition-refinement "
               "bisimulation from the initial states. Exploration with an exhaustive finite core."
-              " Added while validating sensitivity: generator boards of 9 to 400 tiles around typical size thresholds (group offsets beyond the interpreter's small-integer cache).")
+              " Added while validating sensitivity: generator boards of 9 to 400 tiles around typical size thresholds (group offsets beyond the interpreter's small-integer cache)."
+              ' Later rounds: the command-line entry point, two thirds of it after an earlier run in the same directory whose break probabilities differ by less than a percent; hand-made boards with tuple rows (all loose patterns of the small shapes), fractional rewards and rewards of more than six significant digits; one 6560-tile board (65 602 states) in the thorough tier.')
 LEVEL_NOTE = ("Trusted: the ~60-line rule model and the partition refinement in harness/roborta_model.py; the reading of "
               "'robot failure leaves the robot on its tile' as re-entering the tile (a loose tile may break again), which "
               "is what the code does on every multi-column board where the property is not in doubt; chance "
